@@ -190,6 +190,15 @@ def r2(R, m, methods):
                 if any(other_c for other_c in [x for x in ast.walk(other) if isinstance(x, ast.ListComp)]
                        if any(k_ == "comp" and src(c_) == src(other_c) for k_, c_ in loops)):
                     stores2.append(n)
+            # ... or 'for i, vals in enumerate(new): self.__data[i] = vals' - the slots receive, in order, the list built from the whole storage
+            if isinstance(n, ast.For) and isinstance(n.iter, ast.Call) and pyfacts.dotted(n.iter.func) == "enumerate" and len(n.iter.args) == 1 \
+                    and not is_self_data(n.iter.args[0]) and isinstance(n.target, ast.Tuple) and len(n.target.elts) == 2:
+                other = pyfacts.resolved(fn, n.iter.args[0], 2, keep=("self",))
+                if isinstance(other, ast.ListComp) and any(k_ == "comp" and src(c_) == src(other) for k_, c_ in loops):
+                    slot_stores = [s_ for s_ in n.body if isinstance(s_, ast.Assign) and isinstance(s_.targets[0], ast.Subscript) and is_self_data(s_.targets[0].value)
+                                   and src(s_.targets[0].slice) == src(n.target.elts[0]) and src(s_.value) == src(n.target.elts[1])]
+                    if len(slot_stores) == 1 and len(n.body) == 1:
+                        stores2.append(n)
         loops = [(k_, n) for k_, n in loops]
         recognised = {id(n) for k_, n in loops} | {id(n) for n in stores2}
         for n in ast.walk(fn):
@@ -256,12 +265,17 @@ def r2(R, m, methods):
     fn = methods["sortby"]
     ok = any(isinstance(c, ast.Call) and (pyfacts.dotted(c.func) or "").endswith("argsort") for c in ast.walk(fn))
     R.check(ok, "C17.R2", REL, fn.lineno, "columnfile.sortby", "order = argsort(column)", "the row order is not an argsort permutation")
-    # reorder stores in place through a full-slice
+    # reorder stores every permuted column: over the whole of the old array ( col[:] = .. ) or as the new array of that slot
+    # ( self.__data[i] = vals, as filter does; C17.R9 says which of the two is safe when titles share memory )
     fn = methods["reorder"]
     st = [s for s in ast.walk(fn) if isinstance(s, ast.Assign) and isinstance(s.targets[0], ast.Subscript)]
-    R.check(len(st) == 1 and isinstance(st[0].targets[0].slice, ast.Slice) and st[0].targets[0].slice.lower is None
-            and st[0].targets[0].slice.upper is None, "C17.R2", REL, fn.lineno, "columnfile.reorder", "col[:] = col[indices]",
-            "reorder must overwrite each whole column in place")
+    R.shape(len(st) == 1, "C17.R2", REL, "columnfile.reorder", "the single store of a permuted column")
+    t0 = st[0].targets[0]
+    whole = isinstance(t0.slice, ast.Slice) and t0.slice.lower is None and t0.slice.upper is None and t0.slice.step is None
+    slot = is_self_data(t0.value) and isinstance(t0.slice, ast.Name)
+    R.shape(whole or slot or isinstance(t0.slice, (ast.Slice, ast.Constant)), "C17.R2", REL, "columnfile.reorder", "the target of '%s'" % src(st[0])[:60])
+    R.check(whole or slot, "C17.R2", REL, st[0].lineno, "columnfile.reorder", "%s replaces the whole column" % src(st[0])[:50],
+            "reorder stores only part of each column (a partial slice / a fixed index): the rest keeps the old order")
 
 
 # --------------------------------------------------------------------------------------------------
@@ -737,6 +751,20 @@ def r9(R, m, methods):
                      ((isinstance(x.value, ast.Name) and x.value.id in colnames and src(x.value) == src(st.targets[0].value)) or
                       (isinstance(x.value, ast.Subscript) and is_self_data(x.value.value)))]
         single_phase = bool(reads_col) and direct
+        # a store INTO an old column array ( col[:] = vals, self.__data[i][:] = vals ) - as opposed to putting a new array in the
+        # slot ( self.__data[i] = vals ) - writes memory that another title may share partly: addcolumn(a, 'x'); addcolumn(a[::-1], 'y')
+        t0 = st.targets[0]
+        whole_slice = isinstance(t0.slice, ast.Slice) and t0.slice.lower is None and t0.slice.upper is None or \
+            (isinstance(t0.slice, ast.Constant) and t0.slice.value is Ellipsis)
+        into_column = whole_slice and ((isinstance(t0.value, ast.Name) and t0.value.id in colnames | set(
+            x.id for l_ in ast.walk(fn) if isinstance(l_, ast.For) and (is_self_data(l_.iter) or any(is_self_data(a_) for a_ in ast.walk(l_.iter)))
+            for x in ast.walk(l_.target) if isinstance(x, ast.Name))) or (isinstance(t0.value, ast.Subscript) and is_self_data(t0.value.value)))
+        if into_column and alias and not single_phase:
+            R.check(False, "C17.R9", REL, st.lineno, "columnfile.reorder", "%s stores into the old column array" % src(st),
+                    "the permuted values are written into the existing column arrays, but addcolumn (line %d) keeps the caller's array: two titles "
+                    "holding overlapping views of one buffer ( addcolumn(a, 'x'); addcolumn(a[::-1], 'y') ) overwrite each other's rows, so after "
+                    "sortby one of them is not in the order of the others - put the new arrays in the slots instead (as filter does)" % alias[0].lineno)
+            continue
         if single_phase and alias:
             R.check(False, "C17.R9", REL, st.lineno, "columnfile.reorder", "%s inside the loop over the columns" % src(st),
                     "each column is stored as soon as it is permuted, but addcolumn (line %d) keeps the caller's array: after "
